@@ -84,6 +84,7 @@ type sgWorld struct {
 	impl2 *sgImpl
 	obj2  uint32
 	osubs []*sgSub
+	svc   bus.Service
 }
 
 var sgw *sgWorld
@@ -100,6 +101,7 @@ func sgNewWorld() (*sgWorld, string) {
 	if err != nil {
 		return nil, "setup-error:" + err.Error()
 	}
+	w.svc = svc
 	w.impl2 = &sgImpl{}
 	if w.obj2, err = svc.Add(pong.PingPongObject(w.impl2)); err != nil {
 		return nil, "setup-error:" + err.Error()
@@ -365,9 +367,27 @@ func execSg(op string) func(a []string) string {
 				return "error:" + s.err.Error()
 			}
 			return fmt.Sprintf("acked %d", len(w.osubs)-1)
+		case "oterm":
+			// the other object is removed: its subscribers are told (an error message on the signal), their channels close
+			if err := w.svc.Remove(w.obj2); err != nil {
+				return "error:" + err.Error()
+			}
+			for _, s := range w.osubs {
+				s.mu.Lock()
+				started := s.started
+				s.mu.Unlock()
+				if !started && !s.closedSoon() {
+					return "channel-not-closed"
+				}
+			}
+			w.barriers()
+			return "ok"
 		case "ocancel":
 			s := w.osubs[n(0)]
 			s.stable()
+			s.mu.Lock()
+			s.started = true
+			s.mu.Unlock()
 			done := make(chan struct{})
 			go func() { s.cancel(); close(done) }()
 			if !sgWait(done, 3*time.Second) {
@@ -597,7 +617,7 @@ func sgStorm(a []string) string {
 }
 
 func init() {
-	for _, op := range []string{"holdunreg", "reset", "conn", "hold", "release", "sub", "cancel", "emit", "call", "got", "osub", "ocancel", "oemit", "ogot"} {
+	for _, op := range []string{"oterm", "holdunreg", "reset", "conn", "hold", "release", "sub", "cancel", "emit", "call", "got", "osub", "ocancel", "oemit", "ogot"} {
 		executors["sg."+op] = execSg(op)
 	}
 	executors["sg.burstcancel"] = func(a []string) string {
@@ -639,6 +659,7 @@ func runC13(r *Rand, tier string, o *Out) {
 		}
 		var subs []*sub
 		var osubs []bool // subscribers of the other object: cancelled?
+		oterminated := false
 		held := make([]bool, nconn)
 		waiting := make([]int, nconn) // operations waiting for the lock of that connection's client
 		steps := 8 + r.Intn(18)
@@ -676,7 +697,7 @@ func runC13(r *Rand, tier string, o *Out) {
 					}
 					o.Count("op:cancel")
 				}
-			case c < 66:
+			case c < 62:
 				emitN++
 				o.Do("P", fmt.Sprintf("sg.emit %d", emitN), true)
 				o.Count("op:emit")
@@ -687,11 +708,27 @@ func runC13(r *Rand, tier string, o *Out) {
 					anyHeld = anyHeld || h
 				}
 				switch d := r.Intn(10); {
-				case d < 3 && !held[k] && waiting[k] == 0 && len(osubs) < 4:
+				case oterminated:
+					// the object is gone; whoever subscribed to it may still call its cancel function
+					if !anyHeld {
+						for j, c := range osubs {
+							if !c && r.Chance(50) {
+								o.Do("P", fmt.Sprintf("sg.ocancel %d", j), true)
+								osubs[j] = true
+								o.Count("op:cancel-after-the-object-is-gone")
+								break
+							}
+						}
+					}
+				case d >= 7 && len(osubs) > 0 && !anyHeld:
+					o.Do("P", "sg.oterm", true)
+					oterminated = true
+					o.Count("op:other-object-removed")
+				case d < 4 && !held[k] && waiting[k] == 0 && len(osubs) < 4:
 					o.Do("P", fmt.Sprintf("sg.osub %d", k), true)
 					osubs = append(osubs, false)
 					o.Count("op:other-object-subscribe")
-				case d < 4 && !anyHeld:
+				case d < 5 && !anyHeld:
 					for j, c := range osubs {
 						if !c {
 							o.Do("P", fmt.Sprintf("sg.ocancel %d", j), true)
@@ -756,6 +793,14 @@ func runC13(r *Rand, tier string, o *Out) {
 	// the witnesses of the two repaired defects
 	for _, l := range []string{
 		"sg.reset", "sg.conn", "sg.hold 0", "sg.sub 0", "sg.sub 0", "sg.emit 1", "sg.release 0", "sg.emit 2", "sg.got 0", "sg.got 1",
+	} {
+		o.Do("P", l, true)
+	}
+	// a subscriber whose object was removed calls its cancel function after somebody else has subscribed
+	emitN++
+	for _, l := range []string{
+		"sg.reset", "sg.conn", "sg.osub 0", "sg.osub 0", "sg.oterm", "sg.sub 0", "sg.ocancel 0", "sg.sub 0", "sg.ocancel 1",
+		fmt.Sprintf("sg.emit %d", emitN), "sg.got 0", "sg.got 1", "sg.ogot 0", "sg.ogot 1",
 	} {
 		o.Do("P", l, true)
 	}
